@@ -83,7 +83,7 @@ Print Assumptions C11_decode_bounded.
 (* ---- the Stream state machine (rlp/decode.go type Stream), code-shaped model
    Rlp/StreamModel.v: Kind / List / ListEnd / Bytes / Raw / Uint / Bool over the Go
    struct fields (remaining, limited, stack of listpos, cached kind/size/byteval/kinderr) ---- *)
-From AQ Require Import Rlp.StreamModel Rlp.StreamProofs.
+From AQ Require Import Rlp.StreamModel Rlp.StreamProofs Rlp.StreamProofs2.
 
 (* REFINEMENT.  The generic walker (Kind; a list is List, elements until EOL, ListEnd;
    anything else is Bytes — decodeInterface / every hand-written DecodeRLP) over a fresh
@@ -149,16 +149,39 @@ Theorem C11_stream_kind_bounded : forall s k n s1, Inv s -> st_kind s = (SOk (k,
 Proof. exact stream_kind_bounded. Qed.
 Print Assumptions C11_stream_kind_bounded.
 
-(* Uint (maxbits 8..64) returns item_to_uint of the next value, which is a canonically
-   encoded string, and consumes exactly its encoding.
-   _partial: the converse (if the next value x has item_to_uint bits x = Some v then Uint
-   returns v; and which error is returned otherwise) is not proved; it is covered by the
-   operation-sequence correspondence Stream.ops~StreamModel.st_op only. *)
-Theorem C11_stream_uint_partial : forall bits s v s', Inv0 s -> s_kind s = None -> 8 <= bits <= 64 ->
-  st_uint bits s = (SOk v, s') ->
-  exists x, reads s (encode x) s' /\ item_to_uint bits x = Some v /\ fits x = true /\ s_kind s' = None.
-Proof. exact stream_uint_sound. Qed.
-Print Assumptions C11_stream_uint_partial.
+(* Uint (8 <= maxbits <= 64) at a value position, against the item-level specification.
+   `uint_next bits s x v`: the unread input starts with `encode x`, that encoding lies inside
+   the innermost open list and inside the input limit, and `item_to_uint bits x = Some v`
+   (x is a string without leading zero of at most bits/8 bytes, v its big-endian value).
+   (1) Uint returns v iff there is such an x; (2) it has then consumed exactly `encode x`
+   (list position and limit advanced by it, next header re-armed); (3) it returns an error
+   iff there is no such x (wrong kind, leading zero, non-canonical single byte or size, too
+   wide, truncated, beyond the list or the limit); (4) it never panics.
+   (Was C11_stream_uint_partial = conjunct (2) alone; the converse is
+   StreamProofs2.stream_uint_complete.) *)
+Theorem C11_stream_uint : forall bits s, Inv0 s -> s_kind s = None -> 8 <= bits <= 64 ->
+  (forall v, (exists s', st_uint bits s = (SOk v, s')) <-> (exists x, uint_next bits s x v)) /\
+  (forall v s', st_uint bits s = (SOk v, s') ->
+     exists x, uint_next bits s x v /\ reads s (encode x) s' /\ fits x = true /\ s_kind s' = None) /\
+  ((exists e s', st_uint bits s = (SErr e, s')) <-> ~ (exists x v, uint_next bits s x v)) /\
+  fst (st_uint bits s) <> SPanic.
+Proof. exact stream_uint. Qed.
+Print Assumptions C11_stream_uint.
+
+(* non-vacuity: inside a list, after a first element, a 2-byte integer followed by another
+   element satisfies uint_next and Uint(16) returns it; Uint(8) refuses the same value
+   (errUintOverflow), a leading zero is ErrCanonInt, a list is ErrExpectedString *)
+Example C11_stream_uint_example :
+  let s0 := new_stream [xc5; x05; x82; x01; x00; x80] 0 true in
+  let s1 := snd (st_uint 8 (snd (st_list s0))) in
+  Inv0 s1 /\ s_kind s1 = None /\
+  uint_next 16 s1 (Str [x01; x00]) 256 /\
+  fst (st_uint 16 s1) = SOk 256 /\ s_in (snd (st_uint 16 s1)) = [x80] /\
+  fst (st_uint 8 s1) = SErr EUintOverflow /\
+  (forall x v, ~ uint_next 8 s1 x v) /\
+  fst (st_uint 64 (new_stream [x82; x00; x01] 0 true)) = SErr ECanonInt /\
+  fst (st_uint 64 (new_stream [xc0] 0 true)) = SErr EExpectedString.
+Proof. exact stream_uint_example. Qed.
 
 (* Raw returns exactly the bytes it consumed (header ++ content) ... *)
 Theorem C11_stream_raw : forall s raw s', Inv0 s -> s_kind s = None -> st_raw s = (SOk raw, s') ->
